@@ -22,3 +22,5 @@ import RenetVerif.Props.SrcTieNcSequence
 import RenetVerif.Props.SrcTieSendUnrel
 import RenetVerif.Props.SrcTieRecvUnrel
 import RenetVerif.Props.SrcTieSendRel
+import RenetVerif.Props.SrcTieRecvRel
+import RenetVerif.Props.SrcTieNcPacket
